@@ -264,6 +264,8 @@ def run(ctx):
                           "TrialModel.find_or_raise_by_id(.., for_update=True) on that row",
                   how="for_update fetch dominates the state read", where=where(f, x),
                   witness=None if ok else g.witness([n], guards=lock_nodes))
+    from rules import _cas
+    _cas.cas_rdb_atomic_rule(ctx, "R03.4", label="row-lock")
     # writes of trial.state also only on the locked object
     # (b) _create_new_trial: study row lock dominates trial preparation
     f = p.lookup_method(rdb, "_create_new_trial")
